@@ -100,9 +100,10 @@ type TermStore struct {
 	tab   map[string]*Term
 	terms []*Term
 	vars  map[string]*Term
+	notOf map[int]*Term
 }
 
-var TS = &TermStore{tab: map[string]*Term{}, vars: map[string]*Term{}}
+var TS = &TermStore{tab: map[string]*Term{}, vars: map[string]*Term{}, notOf: map[int]*Term{}}
 
 func (ts *TermStore) mk(op Op, s Sort, c uint64, name string, args ...*Term) *Term {
 	buf := make([]byte, 0, 24+len(name)+4*len(args))
@@ -187,7 +188,9 @@ func Not(a *Term) *Term {
 	if a.Op == ONot {
 		return a.Args[0]
 	}
-	return TS.mk(ONot, BoolSort, 0, "", a)
+	n := TS.mk(ONot, BoolSort, 0, "", a)
+	TS.notOf[a.ID] = n
+	return n
 }
 
 func And(as ...*Term) *Term {
@@ -223,7 +226,53 @@ func And(as ...*Term) *Term {
 	if len(out) == 1 {
 		return out[0]
 	}
+	// a AND (not a OR b)  ==  a AND b ;  a AND (a OR b) == a
+	if !inSimp {
+		changed := false
+		for i, a := range out {
+			if a.Op != OOr {
+				continue
+			}
+			var keep []*Term
+			drop := false
+			for _, d := range a.Args {
+				if seen[d.ID] {
+					drop = true // absorbed: a sibling conjunct already implies this disjunction
+					break
+				}
+				if seen[compID(d)] {
+					continue // its complement is a sibling conjunct: this disjunct is false
+				}
+				keep = append(keep, d)
+			}
+			if drop {
+				out[i] = True
+				changed = true
+			} else if len(keep) != len(a.Args) {
+				inSimp = true
+				out[i] = Or(keep...)
+				inSimp = false
+				changed = true
+			}
+		}
+		if changed {
+			return And(out...)
+		}
+	}
 	return TS.mk(OAnd, BoolSort, 0, "", out...)
+}
+
+var inSimp bool
+
+// compID: the ID of the complement of t if that term exists, else -1
+func compID(t *Term) int {
+	if t.Op == ONot {
+		return t.Args[0].ID
+	}
+	if n, ok := TS.notOf[t.ID]; ok {
+		return n.ID
+	}
+	return -1
 }
 
 func Or(as ...*Term) *Term {
@@ -258,6 +307,39 @@ func Or(as ...*Term) *Term {
 	}
 	if len(out) == 1 {
 		return out[0]
+	}
+	// a OR (not a AND b)  ==  a OR b ;  a OR (a AND b) == a
+	if !inSimp {
+		changed := false
+		for i, a := range out {
+			if a.Op != OAnd {
+				continue
+			}
+			var keep []*Term
+			drop := false
+			for _, c := range a.Args {
+				if seen[c.ID] {
+					drop = true // absorbed by the sibling disjunct c
+					break
+				}
+				if seen[compID(c)] {
+					continue
+				}
+				keep = append(keep, c)
+			}
+			if drop {
+				out[i] = False
+				changed = true
+			} else if len(keep) != len(a.Args) {
+				inSimp = true
+				out[i] = And(keep...)
+				inSimp = false
+				changed = true
+			}
+		}
+		if changed {
+			return Or(out...)
+		}
 	}
 	return TS.mk(OOr, BoolSort, 0, "", out...)
 }
